@@ -247,7 +247,15 @@ func runC18(rc *RC) {
 				body, key = fmt.Sprintf(`<invite from="friend@example.net" to="me@example.net"><reason>inv%d</reason></invite><password>pw%d</password>`, i, i), fmt.Sprintf("inv%d|pw%d|", i, i)
 			}
 			wantInv[key]++
-			e.PeerWrite(fmt.Sprintf(`<message from="roomx%d@conf.example.net"><x xmlns="http://jabber.org/protocol/muc#user">%s</x></message>`, i, body))
+			// rooms add the legacy direct-invitation element for old clients; other payloads may ride along too
+			pre, post := "", ""
+			switch ch.Int("workload", 4) {
+			case 0:
+				post = fmt.Sprintf(`<x xmlns="jabber:x:conference" jid="roomx%d@conf.example.net"/>`, i)
+			case 1:
+				pre = `<x xmlns="urn:verif:other"/>`
+			}
+			e.PeerWrite(fmt.Sprintf(`<message from="roomx%d@conf.example.net">%s<x xmlns="http://jabber.org/protocol/muc#user">%s</x>%s</message>`, i, pre, body, post))
 			rc.Fire("invite")
 		}
 		e.PeerWrite(`<message from="someone@example.net" type="chat"><body>unrelated</body></message>`)
